@@ -453,7 +453,9 @@ impl Encoder {
             ast::FieldDesc::Count { field_id, width, .. } => {
                 let field_name = field_id.to_ident();
                 let field_type = types::Integer::new(*width);
-                if field_type.width > *width {
+                // The count is a usize: it must be checked against the width of the
+                // field even when the field has the width of its backing type.
+                if *width < usize::BITS as usize {
                     let packet_name = &self.packet_name;
                     let max_value = mask_bits(*width, "usize");
                     self.tokens.extend(quote! {
